@@ -145,7 +145,7 @@ class C18(Check):
         if only_hist is not None:
             # replay mode: check every prefix of one history
             for n in range(len(only_hist) + 1):
-                h = [tuple(op) for op in only_hist[:n]]
+                h = tuple(tuple(op) for op in only_hist[:n])
                 r = self.fresh(ia, a, b, h)
                 self.invariant(r, scffld, src_map, case0 + [[list(o) for o in h]], ctx)
                 if n < len(only_hist):
